@@ -240,6 +240,18 @@ class Interp:
                     del mid.tracks[i + 1]
                     model['tracks'][i:i + 2] = [model['tracks'][i] + model['tracks'][i + 1]]
                     self._edit()
+            elif kind == 'reload':
+                # from here on the object under test is one that the file READER produced (save, load, go on editing)
+                import io
+                from lib import refsmf as F
+                try:
+                    buf = io.BytesIO()
+                    mid.save(file=buf)
+                except (ValueError, TypeError):
+                    return                  # present contents cannot be stored: stay with the in-memory object
+                self.mid = mid = mido.MidiFile(file=io.BytesIO(buf.getvalue()), charset=model.get('charset', 'latin1'))
+                model['tracks'] = [F.canon_track(t) for t in model['tracks']]
+                self._edit()
             elif kind == 'tracks_replace':
                 keep = [i for i in range(nt) if (op[1] >> i) & 1]
                 mid.tracks = [mid.tracks[i] for i in keep]
@@ -460,6 +472,10 @@ class FileMachine(RuleBasedStateMachine):
         self.ops.append(['track_join', i])
 
     @rule()
+    def reload(self):
+        self.ops.append(['reload'])
+
+    @rule()
     def poke_merged(self):
         self.ops.append(['poke_merged'])
 
@@ -522,6 +538,10 @@ def main(ctx):
                 ctx.check({'ops': [['add_track', None], ['msg_append', 0, 0, 480], ['msg_append', 0, 2, 0],
                                    ['msg_append', 0, 1, 480], ['observe', first], edit, ['observe', second]]})
         for second in ('length', 'iter', 'merged', 'play', 'save'):
+            for edit in (['msg_set', 0, 0, 'field', 5], ['msg_set', 0, 1, 'field', 7], ['msg_replace', 0, 3, 0, 0],
+                         ['msg_set', 0, 0, 'time', 960]):
+                ctx.check({'ops': [['add_track', None], ['msg_append', 0, 0, 480], ['msg_append', 0, 2, 0],
+                                   ['msg_append', 0, 1, 480], ['reload'], ['observe', first], edit, ['observe', second]]})
             ctx.check({'ops': [['add_track', None], ['msg_append', 0, 8, 480], ['msg_append', 0, 1, 480], ['observe', first],
                                ['msg_set', 0, 0, 'field', 1], ['observe', second]]})
             ctx.check({'ops': [['add_track', None], ['msg_append', 0, 0, -1], ['msg_append', 0, 1, 480], ['observe', first],
